@@ -42,6 +42,10 @@ def configs():
         mimetypes.init()
         for i, k in enumerate(_mime_keys()):
             mimetypes.add_type(k, f".c07m{i}")
+        # ... and that has a private content-encoding suffix and a private suffix alias: a name typed through MORE than its last
+        # suffix exists on every host, whatever the platform's own encodings_map / suffix_map contain
+        mimetypes._db.encodings_map[".c07z"] = "c07z"
+        mimetypes._db.suffix_map[".c07s"] = ".c07m0.c07z"
     def mime_variants():
         # a host database (fresh: nothing of the platform's files) that answers with spellings of the table's MIME types that
         # are NOT table keys -- other case, parameters, blanks -- for extensions the router does not know: whatever the MIME
@@ -104,6 +108,30 @@ def paths(extra=()):
     for n in ("report.pdf", "Notes.DOCX", "bundle.tar.gz", "a.txt", "x.weird", "tool.exe", "noext", "a.c07m0"):
         out += [f"{n}/", f"{n}//", f"{n}/.", f"{n}/..", f"./{n}", f"d/../{n}", f"d//{n}", f"{n}/x", f"{n}\\", f"d\\{n}", f" {n} ", f"{n}?v=1", f"{n}#frag",
                 f"file:///tmp/{n}", f"~/{n}", f"{n}/./"]
+    out += stacked_names()
+    return out
+
+
+def stacked_names():
+    """names whose routing is NOT a function of the last suffix alone: mimetypes peels content-encoding suffixes (encodings_map:
+    .gz .bz2 .xz .br .Z, the private .c07z of the "mime-table" configuration) and rewrites suffix aliases (suffix_map: .tgz .svgz ...)
+    before it types the INNER name, so `minutes.text.br` is supported through the MIME fallback although `.br` is nothing to the
+    router.  Inner names: routable extensions, extensions only the MIME fallback knows (platform database and private ones),
+    unknown ones; suffixes in both cases.  Computed from the interpreter's database, not a list."""
+    db = mimetypes.MimeTypes()
+    encs = sorted(set(db.encodings_map) | {".c07z"})
+    inner = ["minutes-2023.text", "CHANGES.markdown", "page.xhtml", "a.txt", "b.pdf", "c.weird", "noext", "d.c07m0", "e.c07m3", "f.tar"]
+    for k in _mime_keys():
+        for e in sorted(db.guess_all_extensions(k, strict=False))[:2]:
+            inner.append(f"m{len(inner)}{e}")
+    out = []
+    for n in inner:
+        for enc in encs:
+            out.append(n + enc)
+        out.append(n.upper() + encs[len(out) % len(encs)].upper())
+        out.append(n + ".c07z.c07z")
+    for suf in sorted(set(db.suffix_map) | {".c07s"}):
+        out += [f"s{len(out)}{suf}", f"S{len(out)}{suf.upper()}", f"x.text{suf}"]
     return out
 
 
@@ -254,7 +282,83 @@ def member_names():
         for e in exts:
             out.append(f"{d}m{len(out)}.{e}")
     out += ["noext", "docs/.hidden.txt", ".profile", "docs/trailing.", "docs/two.dots.txt", "UPPER.PDF", "dir.txt/inner"]
+    out += [("", "docs/", "a b/c.d/")[i % 3] + n for i, n in enumerate(stacked_names())]
     return out
+
+
+def _state_writers(a, roots):
+    """functions of module `a` that assign (`global X; X = ...`) a module global which the functions `roots` read, directly or
+    through functions of the module they call -- found on the module's AST, no names listed.  -> [(function, [argument tuples])]:
+    the memo / flag state behind the wrappers can be put into every state its writers can produce before the wrappers are compared."""
+    import ast, inspect
+    try:
+        tree = ast.parse(inspect.getsource(a))
+    except Exception:
+        return [], []
+    fns = {n.name: n for n in tree.body if isinstance(n, (ast.FunctionDef, ast.AsyncFunctionDef))}
+    seen, todo, reads = set(), [x for x in roots if x in fns], set()
+    while todo:
+        q = todo.pop()
+        if q in seen:
+            continue
+        seen.add(q)
+        for x in ast.walk(fns[q]):
+            if isinstance(x, ast.Name):
+                if x.id in fns:
+                    todo.append(x.id)
+                else:
+                    reads.add(x.id)
+    out = []
+    for q, fn in sorted(fns.items()):
+        written = {nm for x in ast.walk(fn) if isinstance(x, ast.Global) for nm in x.names} & reads
+        if not written:
+            continue
+        params = [p.arg for p in fn.args.posonlyargs + fn.args.args]
+        if len(params) > 3 or fn.args.kwonlyargs:
+            continue
+        out.append((getattr(a, q, None), list(itertools.product((True, False, None), repeat=len(params)))))
+    cells = sorted(nm for fn in fns.values() for x in ast.walk(fn) if isinstance(x, ast.Global) for nm in x.names if nm in reads)
+    return [(f, args) for (f, args) in out if callable(f)], cells
+
+
+def archive_wrapper_states():
+    """the cached wrappers in every state that the writers of the module globals behind them can produce"""
+    r = router()
+    from sharepoint2text.parsing.extractors import archive_extractor as a
+    writers, cells = _state_writers(a, ("_is_supported_file_cached", "_get_file_extractor_cached", "_should_skip_file"))
+    if not writers:
+        return None
+    saved = {c: getattr(a, c) for c in cells if hasattr(a, c)}
+    sample = ["a.txt", "b.pdf", "c.weird", "noext", "d.text", "E.DOCX", "f.tar.gz", "minutes.text.br"]
+    try:
+        for f, argsets in writers:
+            for args in argsets:
+                for c, v in saved.items():
+                    setattr(a, c, v)
+                _clear_caches()
+                try:
+                    f(*args)
+                except Exception:  # noqa
+                    continue
+                for p in sample:
+                    for wname, want_fn in (("_is_supported_file_cached", lambda q: ("value", r.is_supported_file(q))), ("_get_file_extractor_cached", outcome)):
+                        w = getattr(a, wname, None)
+                        if w is None:
+                            continue
+                        want = want_fn(p)
+                        try:
+                            g = w(p)
+                            got = ("value", g if isinstance(g, bool) else f"{type(g).__name__} {getattr(g, '__name__', '')}") if wname.startswith("_is") else ("ok", f"{g.__module__}.{g.__name__}")
+                        except Exception as e:  # noqa
+                            got = ("notsupported", None) if type(e).__name__ == "ExtractionFileFormatNotSupportedError" else ("other", type(e).__name__)
+                        if got != want:
+                            return ({"filename": p, "after the call": f"archive_extractor.{f.__name__}{args!r}", "mimetypes": "default"},
+                                    f"router: {want}", f"{wname} -> {got}", f"archive_extractor.py::{wname}")
+    finally:
+        for c, v in saved.items():
+            setattr(a, c, v)
+        _clear_caches()
+    return None
 
 
 def archive_wrappers():
@@ -262,6 +366,9 @@ def archive_wrappers():
     import os
     r = router()
     from sharepoint2text.parsing.extractors import archive_extractor as a
+    bad = archive_wrapper_states()
+    if bad is not None:
+        return bad
     sup_c = getattr(a, "_is_supported_file_cached", None)
     ext_c = getattr(a, "_get_file_extractor_cached", None)
     skip = getattr(a, "_should_skip_file", None)
